@@ -176,6 +176,30 @@ def _is_warn(s: ast.stmt) -> bool:
     return isinstance(s, ast.Expr) and isinstance(s.value, ast.Call) and ast.unparse(s.value.func) == "warnings.warn"
 
 
+class _InlineProps(ast.NodeTransformer):
+    """`self.center_1` -> what the property `center_1` of the same class returns (one level, single-return properties
+    whose name starts with `center`)"""
+
+    def __init__(self, cdef):
+        self.cdef = cdef
+
+    def visit_Attribute(self, node):
+        a = _self_attr(node)
+        if a is not None and a.startswith("center"):
+            fwd = _method(self.cdef, a)
+            if fwd is not None:
+                fb = [s for s in _body(fwd) if not _is_warn(s)]
+                if len(fb) == 1 and isinstance(fb[0], ast.Return) and fb[0].value is not None:
+                    return fb[0].value
+        return self.generic_visit(node)
+
+
+def _inline_center_props(cdef, e):
+    import copy
+
+    return _InlineProps(cdef).visit(copy.deepcopy(e))
+
+
 def _center_table(classes) -> List[Tuple[str, str]]:
     out = []
     for name in sorted(classes):
@@ -198,7 +222,7 @@ def _center_table(classes) -> List[Tuple[str, str]]:
                 fb = [s for s in _body(fwd) if not _is_warn(s)]
                 if len(fb) == 1 and isinstance(fb[0], ast.Return) and fb[0].value is not None:
                     e = fb[0].value
-        out.append((name, _normal_expr(e)))
+        out.append((name, _normal_expr(_inline_center_props(cdef, e))))
     return out
 
 
